@@ -217,7 +217,9 @@ def _q18h(s0, s1, s2, start_enabled):
                 m.specs[nm] = pr.targets[nm].spec
             elif stp == "toggle":
                 m.enabled = not m.enabled
-                _apply_enabled(pr, m.enabled)
+                # through the real `gwf config set` (the way a user switches it), alternating the accepted spellings
+                word = ("yes" if k % 2 else "true") if m.enabled else ("no" if k % 2 else "false")
+                w.config_set("use_spec_hashes", word)
             got = pr.read_json(w.hashes_path())
             if got != m.rec:
                 return "history %s: after step %d (%s) the records are %s, expected %s" % (seq, k, stp, got, m.rec)
